@@ -339,6 +339,10 @@ class Engine:
             return v
         if k == "str":
             return self.fresh_str(base, False)
+        if k == "str1":
+            v = self.fresh_str(base, False)
+            v.l1 = True
+            return v
         if k == "none":
             return NONE
         if k == "opt":
@@ -1541,6 +1545,12 @@ class Engine:
                 m.items[k] = v
                 return
             raise RaiseSig(VExc("IndexError"))
+        if m.items is None and isinstance(idx, VInt):
+            self.builtin_pre("IndexError", z3.And(idx.t < m.length, idx.t >= -m.length), node)
+            for k, fact in enumerate(m.elem_facts):
+                self.oblige("%s/list-elem-fact:%s" % (self.cur_func, getattr(fact, "pred_name", k)), fact(self, v), kind="elem-fact")
+            m.__dict__.pop("cache", None)
+            return
         raise OutOfSubset("list item store", node)
 
     def s_AugAssign(self, node, fr):
